@@ -192,6 +192,18 @@ func (r *Run) Tripped(clause string) bool {
 	return r.perCl[clause] >= r.MaxPerClause
 }
 
+// Broken reports whether so many unlisted violations have accumulated that scheduling more
+// work is pointless (the circuit breaker of DESIGN 2.1); the run then ends with what it has.
+func (r *Run) Broken() bool {
+	if r.TotalUnlisted() >= 60 {
+		r.mu.Lock()
+		r.extra["circuit_breaker"] = "opened: remaining work items were skipped"
+		r.mu.Unlock()
+		return true
+	}
+	return false
+}
+
 // TotalUnlisted returns the number of unlisted violations so far.
 func (r *Run) TotalUnlisted() int {
 	r.mu.Lock()
